@@ -485,7 +485,11 @@ func c39History(r *vkit.Run, caseNo int, rg *vkit.Rand) {
 		// burst: the hot cache store is emptied by a snapshot, then all clients write their first
 		// value of the SAME series field at the same moment (distinct timestamps): the
 		// check-then-insert window of the cache's per-key entry creation
-		for b := 0; b < 3 && !failed.Load(); b++ {
+		nburst := 3
+		if mode == "delete" {
+			nburst = 120 // cheap here: the key is emptied by a delete, no file is written
+		}
+		for b := 0; b < nburst && !failed.Load(); b++ {
 			if mode == "snapshot" {
 				if err := s.Snapshot(); err != nil && !strings.Contains(err.Error(), "snapshot in progress") && !strings.Contains(err.Error(), "disabled") && !strings.Contains(err.Error(), "aborted") {
 					fail("unexpected_error", map[string]string{"op": "snapshot"}, err.Error())
@@ -514,7 +518,7 @@ func c39History(r *vkit.Run, caseNo int, rg *vkit.Rand) {
 				go func(cl int) {
 					defer bw.Done()
 					id := atomic.AddInt64(&idc, 1)
-					t := int64(1000*(round*3+b+1) + cl)
+					t := int64(1000*(round*200+b+1) + cl)
 					var v sk.Val
 					switch fieldKinds[sd.Name][f] {
 					case 'i':
